@@ -366,7 +366,13 @@ def builtin(eng, name, args, kwargs, st):
             raise OutOfSubset('zip over symbolic-length sequence')
         yield tuple(zip(*seqs)), st
     elif name == 'isinstance':
-        raise OutOfSubset('isinstance')
+        # A3: parameter kinds are fixed by the contract; an array-kinded value is an ndarray
+        v, t = args[0], args[1]
+        tn = t.name if isinstance(t, FnV) else str(t)
+        if isinstance(v, Ref) and isinstance(st.heap[v.oid], ArrV) and tn.endswith('ndarray'):
+            yield True, st
+        else:
+            raise OutOfSubset('isinstance(%r, %s)' % (v, tn))
     elif name in ('list', 'tuple'):
         if not args:
             yield (new_ref(st, ListV([])) if name == 'list' else ()), st
@@ -910,7 +916,7 @@ def _sum_fact(name):
 SPEC = {
     'sum_of': spec_sum,
     'sum_nonneg': _sum_fact('sum_nonneg'), 'sum_le': _sum_fact('sum_le'), 'sum_eq': _sum_fact('sum_eq'), 'sum_add': _sum_fact('sum_add'),
-    'sum_scale': _sum_fact('sum_scale'), 'sum_zero': _sum_fact('sum_zero'), 'sum_ge_term': _sum_fact('sum_ge_term'),
+    'sum_scale': _sum_fact('sum_scale'), 'sum_zero': _sum_fact('sum_zero'), 'sum_ge_term': _sum_fact('sum_ge_term'), 'sum_const': _sum_fact('sum_const'),
     'mm': spec_mm,
     'mm_bounds': _mm_axiom('bounds'),
     'mm_monotone': _mm_axiom('monotone'),
